@@ -1,4 +1,4 @@
 INIT SInit
 NEXT SNext
-INVARIANTS Sorted SoloProgress SumPreserved
+INVARIANTS Sorted SoloProgress SumPreserved NoDirtyRead
 CHECK_DEADLOCK FALSE
